@@ -250,6 +250,11 @@ def freeze(e):
     return {"n": "freeze", "e": e}
 
 
+def evl(e):
+    """eval of the source text of e"""
+    return {"n": "eval", "e": e}
+
+
 def struct(name, fields):
     return {"n": "struct", "nm": name, "fs": list(fields)}
 
@@ -387,4 +392,6 @@ def pp(e):
         return "(freeze %s)" % pp(e["e"])
     if n == "struct":
         return "struct %s (%s)" % (e["nm"], ", ".join(e["fs"]))
+    if n == "eval":
+        return 'eval("%s")' % pp(e["e"]).replace("\\", "\\\\").replace('"', '\\"')
     raise ValueError(n)
